@@ -578,13 +578,17 @@ func (c *Client) PublishExactlyOnceRetained(message []byte, topic string) (excha
 
 func (c *Client) submitPersisted(packet net.Buffers, out outbound) (exchange <-chan error, err error) {
 	// lock sequence
+	verifEv("sp.enter", vb(out.seqSem == c.exactlyOnce.seqSem))
 	seq, ok := <-out.seqSem
+	verifEv("seqRecv", vb(out.seqSem == c.exactlyOnce.seqSem), vb(ok))
 	if !ok {
 		return nil, ErrClosed
 	}
 	defer func() {
+		verifEv("seqSend", vb(out.seqSem == c.exactlyOnce.seqSem))
 		out.seqSem <- seq // unlock with updated
 	}()
+	verifEv("ctx", vb(c.ctx.Err() != nil))
 	if c.ctx.Err() != nil {
 		return nil, ErrClosed
 	}
@@ -593,6 +597,7 @@ func (c *Client) submitPersisted(packet net.Buffers, out outbound) (exchange <-c
 
 	// persist
 	done, err := c.applySeqNoAndEnqueue(packet, seq.acceptN, out)
+	verifEv("io", vb(err == nil))
 	if err != nil {
 		return nil, err
 	}
@@ -600,6 +605,7 @@ func (c *Client) submitPersisted(packet net.Buffers, out outbound) (exchange <-c
 
 	// submit
 	if hasBacklog {
+		verifEv("default")
 		// buffered channel won't block
 		done <- fmt.Errorf("%w; PUBLISH enqueued", ErrDown)
 	} else {
